@@ -294,7 +294,10 @@ def tail (r1 : Rd) (s1 : Src) (cx1 : Ctx) (k : Nat) : Option (Bytes × Nat × Op
       else if r2.fragmented then some (bytes, n, none, r2.resetFragment, s2, cx1)
       else if r2.checkUTF8 && !r2.utf8.valid then some (bytes, r2.utf8.accepted, some .utf8, r2, s2, cx1)
       else some (bytes, n, some .eof, r2.reset, s2, cx1)
-    | some e => some (bytes, n, some e, r2, s2, cx1)
+    | some e =>
+      if e != .utf8 && r2.rawN == 0 && !r2.fragmented && r2.checkUTF8 && !r2.utf8.valid then
+        some (bytes, r2.utf8.accepted, some .utf8, r2, s2, cx1)
+      else some (bytes, n, some e, r2, s2, cx1)
 
 theorem read_has (r : Rd) (s : Src) (cx : Ctx) (k : Nat) (h : r.hasFrame = true) :
     r.read s cx k none = tail r s cx k := by
@@ -341,13 +344,14 @@ structure TM (σ : U8) (r : Rd) : Prop where
 
 /-- outcome of one Read of the checking reader (`real`) against the non-checking one
     (`bytes, n, e, q, s', cx'`): the same, or ErrInvalidUTF8 exactly when the text left Table 3-7 or the
-    message ended inside a character -/
+    message ended (`e ≠ none`: io.EOF, or the transport's failure arriving with the last bytes) inside a
+    character -/
 def SimOut (σ : U8) (real : Option (Bytes × Nat × Option RErr × Rd × Src × Ctx))
     (bytes : Bytes) (n : Nat) (e : Option RErr) (q : Rd) (s' : Src) (cx' : Ctx) : Prop :=
   n = bytes.length ∧
   ((u8Run σ bytes ≠ .rej ∧ (e = some .eof → u8Run σ bytes = .acc)
       ∧ ∃ r', real = some (bytes, n, e, r', s', cx') ∧ strip r' = q ∧ (e = none → TM (u8Run σ bytes) r'))
-   ∨ ((u8Run σ bytes = .rej ∨ (e = some .eof ∧ u8Run σ bytes ≠ .acc))
+   ∨ ((u8Run σ bytes = .rej ∨ (e ≠ none ∧ u8Run σ bytes ≠ .acc))
       ∧ ∃ m r', real = some (bytes, m, some .utf8, r', s', cx')))
 
 theorem frameRead_strip_fix (r : Rd) (s : Src) (k : Nat) (p : Bytes) (n : Nat) (e : Option RErr) (q : Rd) (s' : Src)
@@ -412,7 +416,7 @@ theorem tail_sim (σ : U8) (r : Rd) (s : Src) (cx : Ctx) (k : Nat) (htm : TM σ 
       split at h <;> (try split at h) <;> (try split at h) <;>
         (simp only [Option.some.injEq, Prod.mk.injEq] at h; obtain ⟨h1, h2, _, _, h5, h6⟩ := h; exact ⟨h1.symm, h5.symm, h6.symm, h2.symm⟩)
     | some e1 =>
-      cases e1 <;> simp only [hq2c, Bool.false_and, Bool.false_eq_true, if_false] at h <;>
+      cases e1 <;> simp only [hq2c, Bool.false_and, Bool.and_false, Bool.false_eq_true, if_false] at h <;>
         (try (split at h <;> (try split at h) <;> (try split at h))) <;>
         (simp only [Option.some.injEq, Prod.mk.injEq] at h; obtain ⟨h1, h2, _, _, h5, h6⟩ := h; exact ⟨h1.symm, h5.symm, h6.symm, h2.symm⟩)
   obtain ⟨rfl, rfl, rfl, rfl⟩ := hshape
@@ -425,7 +429,7 @@ theorem tail_sim (σ : U8) (r : Rd) (s : Src) (cx : Ctx) (k : Nat) (htm : TM σ 
       rw [frameRead_eq, hfr]; simp only [hon, if_true, hf]
     right
     refine ⟨Or.inl hrej, m, { restore r q2 with utf8 := u' }, ?_⟩
-    unfold tail; rw [hreal]
+    unfold tail; rw [hreal]; simp
   · obtain ⟨a, hf⟩ := feed_ok r.utf8 σ htm.st bytes hwf hrej
     obtain ⟨R, hR⟩ : ∃ R : Rd, R = { restore r q2 with utf8 := ⟨u8Enc (u8Run σ bytes), a⟩ } := ⟨_, rfl⟩
     have hreal : r.frameRead s k = some (bytes, bytes.length, e0, R, s') := by
@@ -470,7 +474,7 @@ theorem tail_sim (σ : U8) (r : Rd) (s : Src) (cx : Ctx) (k : Nat) (htm : TM σ 
               else if (R.checkUTF8 && !R.utf8.valid) = true then some (bytes, R.utf8.accepted, some .utf8, R, s', cx')
               else some (bytes, bytes.length, some .eof, R.reset, s', cx')) = some (bytes, bytes.length, e, r', s', cx')
             ∧ strip r' = q ∧ (e = none → TM (u8Run σ bytes) r'))
-        ∨ ((u8Run σ bytes = .rej ∨ (e = some .eof ∧ u8Run σ bytes ≠ .acc))
+        ∨ ((u8Run σ bytes = .rej ∨ (e ≠ none ∧ u8Run σ bytes ≠ .acc))
           ∧ ∃ m r', (if (isn && R.rawN != 0) = true then some (bytes, bytes.length, (none : Option RErr), R, s', cx')
               else if (R.rawN != 0) = true then some (bytes, bytes.length, some .ueof, R, s', cx')
               else if R.fragmented = true then some (bytes, bytes.length, none, R.resetFragment, s', cx')
@@ -504,7 +508,31 @@ theorem tail_sim (σ : U8) (r : Rd) (s : Src) (cx : Ctx) (k : Nat) (htm : TM σ 
               exact Or.inl ⟨hrej, (fun _ => hacc), R.reset, rfl, hRre, (fun hh => by cases hh)⟩
             · have hc : (true && !decide (u8Run σ bytes = U8.acc)) = true := by simp [hacc]
               rw [if_pos hc]
-              exact Or.inr ⟨Or.inr ⟨rfl, hacc⟩, _, R, rfl⟩
+              exact Or.inr ⟨Or.inr ⟨by simp, hacc⟩, _, R, rfl⟩
+    -- any other error of the frame stack (the transport's failure, …): handed on, unless it came with
+    -- the last bytes of a message that ends inside a character
+    have oth : ∀ x : RErr, x ≠ .eof →
+        (u8Run σ bytes ≠ .rej ∧ (some x = some .eof → u8Run σ bytes = .acc)
+          ∧ ∃ r', (if (x != RErr.utf8 && R.rawN == 0 && !R.fragmented && R.checkUTF8 && !R.utf8.valid) = true then
+                some (bytes, R.utf8.accepted, some RErr.utf8, R, s', cx')
+              else some (bytes, bytes.length, some x, R, s', cx')) = some (bytes, bytes.length, some x, r', s', cx')
+            ∧ strip r' = q2 ∧ (some x = none → TM (u8Run σ bytes) r'))
+        ∨ ((u8Run σ bytes = .rej ∨ (some x ≠ none ∧ u8Run σ bytes ≠ .acc))
+          ∧ ∃ m r', (if (x != RErr.utf8 && R.rawN == 0 && !R.fragmented && R.checkUTF8 && !R.utf8.valid) = true then
+                some (bytes, R.utf8.accepted, some RErr.utf8, R, s', cx')
+              else some (bytes, bytes.length, some x, R, s', cx')) = some (bytes, m, some .utf8, r', s', cx')) := by
+      intro x hx
+      by_cases hcond : (x != RErr.utf8 && R.rawN == 0 && !R.fragmented && R.checkUTF8 && !R.utf8.valid) = true
+      · rw [if_pos hcond]
+        simp only [Bool.and_eq_true] at hcond
+        obtain ⟨_, hv⟩ := hcond
+        have hnacc : u8Run σ bytes ≠ .acc := by
+          intro hacc
+          rw [hRval, hacc] at hv
+          simp at hv
+        exact Or.inr ⟨Or.inr ⟨by simp, hnacc⟩, _, R, rfl⟩
+      · rw [if_neg hcond]
+        exact Or.inl ⟨hrej, (fun hh => absurd (Option.some.inj hh) hx), R, rfl, hRs, (fun hh => by cases hh)⟩
     cases e0 with
     | none =>
       simp only [hq2c, Bool.false_and, Bool.false_eq_true, if_false, Option.isNone_none] at h ⊢
@@ -515,9 +543,10 @@ theorem tail_sim (σ : U8) (r : Rd) (s : Src) (cx : Ctx) (k : Nat) (htm : TM σ 
         simp only [hq2c, Bool.false_and, Bool.false_eq_true, if_false, Option.isNone_some] at h ⊢
         exact fin false h
       | _ =>
-        simp only [Option.some.injEq, Prod.mk.injEq, true_and] at h
+        simp only [hq2c, Bool.false_and, Bool.and_false, Bool.false_eq_true, if_false, Option.some.injEq, Prod.mk.injEq, true_and] at h
         obtain ⟨rfl, rfl, _⟩ := h
-        exact Or.inl ⟨hrej, (fun hh => by cases hh), R, rfl, hRs, (fun hh => by cases hh)⟩
+        dsimp only
+        exact oth _ (by simp)
 
 theorem drainRaw_ne_eof (r : Rd) (s : Src) (n : Nat) : (r.drainRaw s n).1 ≠ some .eof := by
   induction n generalizing r s with
@@ -645,7 +674,7 @@ theorem tail_strip_n (r : Rd) (s : Src) (cx : Ctx) (k : Nat) (bytes : Bytes) (n 
     split at h <;> (try split at h) <;> (try split at h) <;>
       (simp only [Option.some.injEq, Prod.mk.injEq] at h; obtain ⟨h1, h2, _⟩ := h; rw [← h1, ← h2]; exact hn0)
   | some e1 =>
-    cases e1 <;> simp only [hq2c, Bool.false_and, Bool.false_eq_true, if_false] at h <;>
+    cases e1 <;> simp only [hq2c, Bool.false_and, Bool.and_false, Bool.false_eq_true, if_false] at h <;>
       (try (split at h <;> (try split at h) <;> (try split at h))) <;>
       (simp only [Option.some.injEq, Prod.mk.injEq] at h; obtain ⟨h1, h2, _⟩ := h; rw [← h1, ← h2]; exact hn0)
 
@@ -685,7 +714,7 @@ theorem reads_sim (ks : List Nat) : ∀ (σ : U8) (r : Rd) (s : Src) (cx : Ctx),
       reads (strip r) s cx ks = some (out, e, q, s', cx') → Bytes.WF out →
       (u8Run σ out ≠ .rej ∧ (e = some .eof → u8Run σ out = .acc)
         ∧ ∃ r', reads r s cx ks = some (out, e, r', s', cx') ∧ strip r' = q ∧ (e = none → TM (u8Run σ out) r'))
-      ∨ ((u8Run σ out = .rej ∨ (e = some .eof ∧ u8Run σ out ≠ .acc))
+      ∨ ((u8Run σ out = .rej ∨ (e ≠ none ∧ u8Run σ out ≠ .acc))
         ∧ ∃ out' r' s'' cx'', reads r s cx ks = some (out', some .utf8, r', s'', cx'') ∧ ∃ more, out = out' ++ more) := by
   induction ks with
   | nil =>
@@ -746,6 +775,6 @@ theorem reads_sim (ks : List Nat) : ∀ (σ : U8) (r : Rd) (s : Src) (cx : Ctx),
         · refine ⟨Or.inl (u8Run_rej_of_prefix σ bytes o a1), bytes.take m, r', s1, cx1, ?_,
             bytes.drop m ++ o, by rw [← List.append_assoc, List.take_append_drop]⟩
           rw [a3]
-        · cases a1
+        · exact absurd rfl a1
 
 end Ws.RdText
